@@ -597,3 +597,9 @@ func ObjID0(f *Fn) string {
 	}
 	return ObjID(f.Obj)
 }
+
+// DefText prints the value definition d gives its variable, in normal form.
+func (f *Fn) DefText(d *Def) (string, bool) {
+	n := normalizer{f: f}
+	return n.defExpr(d)
+}
